@@ -189,7 +189,10 @@ fn run_case(c: &Case) -> Verdict {
                     n_info += 1;
                     let res = eng.add_node(info(id, n_info)).await;
                     let after = check_table(&mut v, &table(&eng).await, &local, "add_node");
-                    if !(m.is_subset(&after)) {
+                    // re-adding a listed peer under new contact details may be refused by the admission gates; the
+                    // peer itself may then be gone (its old slots were given back) - every *other* entry must survive
+                    let lost: Vec<&[u8; 32]> = m.iter().filter(|i| !after.contains(*i)).collect();
+                    if lost.iter().any(|i| **i != id) || (!lost.is_empty() && res.is_ok()) {
                         v.fail(format!("{ID}/add_node/existing-entry-lost"), format!("step {step}"));
                     }
                     if !after.iter().all(|i| m.contains(i) || *i == id) {
